@@ -39,6 +39,16 @@ bustoken() {
   [ -s bin/c09_bustoken.json ] || { echo "HARNESS-ERROR: bus-token test produced no result"; tail -5 bin/bustoken.log; exit 3; }
 }
 
+# server-shutdown part of C20: the whole instance (server.Server) on real nats.go + embedded nats-server
+srvstop() {
+  cp /repo/go.sum realnats/go.sum 2>/dev/null
+  printf '{"Replace":{"/repo/server/zz_verif_srvstop_test.go":"%s/overlay/srvstop_test.go.txt"}}' "$VERIF_ROOT" > bin/ov_srvstop.json
+  (cd realnats && go test -c -overlay ../bin/ov_srvstop.json -vet=off -o ../bin/srvstop.test github.com/simpleiot/simpleiot/server) || { echo "HARNESS-ERROR: server-stop test build failed"; exit 3; }
+  rm -f bin/c20_srvstop.json
+  VERIF_TIER="$tier" VERIF_SRVSTOP_OUT="$VERIF_ROOT/bin/c20_srvstop.json" bin/srvstop.test -test.run '^TestVerifServerStop$' -test.timeout 1800s > bin/srvstop.log 2>&1
+  [ -s bin/c20_srvstop.json ] || { echo "HARNESS-ERROR: server-stop test produced no result"; tail -5 bin/srvstop.log; exit 3; }
+}
+
 # tier B: test binary compiled with go1.26.8 (testing/synctest bubbles)
 build_b() {
   cp /repo/go.sum h/go.sum 2>/dev/null
@@ -66,6 +76,8 @@ case "${1:-}" in
     cp /repo/go.sum realnats/go.sum 2>/dev/null
     printf '{"Replace":{"/repo/server/zz_verif_bustoken_test.go":"%s/overlay/bustoken_test.go.txt"}}' "$VERIF_ROOT" > bin/ov_bustoken.json
     (cd realnats && go test -c -overlay ../bin/ov_bustoken.json -vet=off -o ../bin/bustoken.test github.com/simpleiot/simpleiot/server) || exit 3
+    printf '{"Replace":{"/repo/server/zz_verif_srvstop_test.go":"%s/overlay/srvstop_test.go.txt"}}' "$VERIF_ROOT" > bin/ov_srvstop.json
+    (cd realnats && go test -c -overlay ../bin/ov_srvstop.json -vet=off -o ../bin/srvstop.test github.com/simpleiot/simpleiot/server) || exit 3
     echo "setup ok"
     exit 0;;
   replay)
@@ -101,7 +113,8 @@ case "$id" in
     GORACE="halt_on_error=0 exitcode=0 log_path=$VERIF_ROOT/bin/race/race_report" VERIF_RACE_OUT="$VERIF_ROOT/bin/race/race_out.json" VERIF_TIER="$tier" \
       bin/verifb_race.test -test.run '^TestC20Race$' -test.timeout 30m > bin/race/log.txt 2>&1
     [ -s bin/race/race_out.json ] || { echo "HARNESS-ERROR: race pass did not finish"; tail -5 bin/race/log.txt; exit 3; }
-    VERIF_RACE_DIR="$VERIF_ROOT/bin/race" VERIF_TIER="$tier" exec bin/verifb_gated.test -test.run '^TestC20$' -test.timeout 0;;
+    srvstop
+    VERIF_C20_SRVSTOP="$VERIF_ROOT/bin/c20_srvstop.json" VERIF_RACE_DIR="$VERIF_ROOT/bin/race" VERIF_TIER="$tier" exec bin/verifb_gated.test -test.run '^TestC20$' -test.timeout 0;;
   C04)
     build_s
     (cd h && go build -o ../bin/c04writer ./cmd/c04writer) || { echo "HARNESS-ERROR: c04writer build failed"; exit 3; }
